@@ -81,7 +81,8 @@ struct Decision {
   int rel;       // REL_LT: a < b ; REL_EQ: a == b
   int a, b;
   bool val;
-  bool is_const; // both sides constant: evaluated natively, re-verified exactly by the engine
+  int is_const;  // 1: both sides constant (evaluated natively, re-verified exactly by the engine)
+                 // 2: assumed "within the validity threshold" (auto-valid mode; must be proved by the engine)
 };
 
 struct Ctx {
@@ -197,6 +198,22 @@ struct Ctx {
     return id;
   }
 
+  // auto-valid mode (VS_AUTO_VALID=1): comparisons of the form  |x - 1| <> eps  (the library's
+  // normalisation tests on products of valid elements) are not branched on: they are answered
+  // "within the threshold" and recorded as ASSUMED; the engine must prove each of them from the
+  // contract's precondition (normal form), otherwise the run is rejected as undecided.
+  bool auto_valid = false;
+  bool is_eps(int id) const { return is_const(id) && q(id).n == 25 && q(id).d == 1125899906842624LL; }
+  bool is_abs_minus_one(int id) const {
+    if (nodes[id].op != OP_ABS) return false;
+    const Node& s = nodes[nodes[id].a];
+    return s.op == OP_SUB && is_val(s.b, 1);
+  }
+  bool validity_test(int a, int b, bool& val) const {
+    if (is_eps(a) && is_abs_minus_one(b)) { val = false; return true; }   // eps < |x-1| : no
+    if (is_abs_minus_one(a) && is_eps(b)) { val = true; return true; }    // |x-1| < eps : yes
+    return false;
+  }
   struct OracleInStatic {};
   bool decide(int rel, int a, int b) {
     if (rel == REL_EQ && a > b) std::swap(a, b);
@@ -207,15 +224,17 @@ struct Ctx {
     if (it != memo.end()) return it->second;
     Decision d; d.rel = rel; d.a = a; d.b = b;
     if (is_const(a) && is_const(b)) {
-      d.is_const = true;
+      d.is_const = 1;
       i128 l = (i128)q(a).n * q(b).d, r = (i128)q(b).n * q(a).d;
       d.val = rel == REL_LT ? l < r : l == r;
     } else if (is_anyconst(a) && is_anyconst(b)) {
       // at least one huge double: compare natively; re-verified exactly by the engine
-      d.is_const = true;
+      d.is_const = 1;
       long double l = is_const(a) ? (long double)q(a).n / q(a).d : (long double)nodes[a].val;
       long double r = is_const(b) ? (long double)q(b).n / q(b).d : (long double)nodes[b].val;
       d.val = rel == REL_LT ? l < r : l == r;
+    } else if (auto_valid && rel == REL_LT && validity_test(a, b, d.val)) {
+      d.is_const = 2;
     } else {
       d.is_const = false;
       d.val = pos < script.size() ? (script[pos] != 0) : false;
